@@ -3,9 +3,7 @@ package main
 import (
 	"fmt"
 	"math/big"
-	"os"
 	"strings"
-	"sync"
 	"sync/atomic"
 	"time"
 
@@ -199,45 +197,47 @@ func execOp[FR emulated.FieldParams, G1El any](fam *family[FR, G1El], k *opCase)
 
 var hung atomic.Int64
 
-// viol reports at most two violations per class (gadget, method, flag, kind): one defect is
-// usually reached through many tuples of the alphabet; the others are counted in evidence.
-var (
-	violMu    sync.Mutex
-	violCount = map[string]int{}
-)
-
+// viol reports EVERY violating case (the known findings of C16 are listed by exact input, so a
+// case that newly fails is reported even when its (gadget, method) class already has recorded
+// findings); the per-class totals go to the evidence.
 func viol(c *vh.Check, class, key string, detail any) {
-	violMu.Lock()
-	violCount[class]++
-	n := violCount[class]
-	violMu.Unlock()
 	c.Count("violating-cases-per-class", class, 1)
-	lim := 2
-	if strings.HasSuffix(class, ":unsat") {
-		lim = 1
-	}
-	if strings.HasSuffix(class, ":wrong-result-accepted") {
-		lim = 6
-	}
-	if os.Getenv("C16_NOCOLLAPSE") != "" {
-		lim = 1 << 30
-	}
-	if n <= lim {
-		c.Violation(key, detail)
-	}
+	c.Violation(key, detail)
 }
 
-// guarded runs f with a timeout; a run that does not return is abandoned (its goroutine keeps
+// slowest completed guarded run of this process: the time limit of a run adapts to the machine
+// load (a run is abandoned only after max(d, 25 x the slowest run that did return)).
+var slowest atomic.Int64
+
+// guarded runs f with a time limit; a run that does not return is abandoned (its goroutine keeps
 // spinning: gnark hints cannot be interrupted).
 func guarded(d time.Duration, f func()) (timedOut bool) {
 	done := make(chan struct{})
+	t0 := time.Now()
 	go func() { defer close(done); f() }()
-	select {
-	case <-done:
-		return false
-	case <-time.After(d):
-		hung.Add(1)
-		return true
+	tick := time.NewTicker(250 * time.Millisecond)
+	defer tick.Stop()
+	for {
+		select {
+		case <-done:
+			el := int64(time.Since(t0))
+			for {
+				cur := slowest.Load()
+				if el <= cur || slowest.CompareAndSwap(cur, el) {
+					break
+				}
+			}
+			return false
+		case <-tick.C:
+			lim := d
+			if s := 25 * time.Duration(slowest.Load()); s > lim {
+				lim = s
+			}
+			if time.Since(t0) > lim {
+				hung.Add(1)
+				return true
+			}
+		}
 	}
 }
 
